@@ -22,7 +22,11 @@ Inductive case :=
 | CImport (m : import_mode) (path content : string) (data : node) (obs : node) (ok : bool)   (* text/binary modes *)
 | CExport (f : out_format) (path : option string) (data : node) (obs : written)
 | CEnv (incl : string) (excl : option string) (path : string) (env : list (string * string)) (data : node) (obs : node)
-| CLenient (s : string) (obs : string).
+| CLenient (s : string) (obs : string)
+(* templateFile: [t] the text of the template file (None: no such file); obs: what the output file holds (None: error),
+   and the data document afterwards *)
+| CTemplateFile (t : option tmpl) (file output : string) (path : option string) (data : node)
+                (obs : option string) (after : node).
 
 Definition no_codec (m : import_mode) (s : string) : res gval := RErr "codec not modelled"%string.
 
@@ -41,6 +45,13 @@ Definition check (c : case) : bool :=
       node_eqb (Con (env_op (prefixb incl) (fun k => match excl with Some e => prefixb e k | None => false end)
                             path env (data_of data))) obs
   | CLenient s obs => if possibly_template s then true else String.eqb s obs
+  | CTemplateFile t file output path data obs after =>
+      node_eqb data after &&
+      match template_file_op t file output path (data_of data), obs with
+      | TFErr, None => true
+      | TFWritten c, Some o => String.eqb c o
+      | _, _ => false
+      end
   end.
 
 Definition mismatches (cs : list case) : list nat := bad_indices check cs.
